@@ -45,6 +45,38 @@ def keys (ps : Props) : List String := ps.map fun row => row.headD ""
 
 end Props
 
+/-! #### the remaining methods of props.go (tie: Gts/Bridge/Props.lean — the regenerated code)
+
+The pointer-receiver methods yield the NEW value of `*props`; which other slices see the write
+(aliasing, capacity) is C11's subject (Gts/Model/Mem.lean).  Same precondition `rowsOk` as `index`. -/
+namespace Props
+
+/-- `(*Props).Set(key, values...)`: the FIRST row named `key` becomes `key :: values`, else a new last row -/
+def set : Props → String → List String → Props
+  | [], k, vs => [k :: vs]
+  | row :: rest, k, vs => if row.head? = some k then (k :: vs) :: rest else row :: set rest k vs
+
+/-- `(*Props).Add(key, values...)`: the values are appended to the FIRST row named `key`, else a new last row -/
+def add : Props → String → List String → Props
+  | [], k, vs => [k :: vs]
+  | row :: rest, k, vs => if row.head? = some k then (row ++ vs) :: rest else row :: add rest k vs
+
+/-- `(*Props).Del(key)`: the FIRST row named `key` is removed (a later row of that name stays) -/
+def del : Props → String → Props
+  | [], _ => []
+  | row :: rest, k => if row.head? = some k then rest else row :: del rest k
+
+/-- `Props.Items()`: the (name, value) pairs row by row, in order (a row without values yields none) -/
+def items : Props → List (String × String)
+  | [] => []
+  | [] :: rest => items rest
+  | (k :: vs) :: rest => vs.map (fun v => (k, v)) ++ items rest
+
+/-- `Props.Clone()`: the same table in fresh memory (a value here; freshness is C11's) -/
+def clone (ps : Props) : Props := ps
+
+end Props
+
 /-! ### filters (feature.go:75-148, 236-245) -/
 
 /-- `type Filter func(f Feature) bool` -/
